@@ -52,6 +52,8 @@ def _finding_for(kind, params, a, b, n, via):
         return "F-C09-3" if n >= 1 else "F-C09-5"
     if via == "xn" and n == 0:
         return "F-C09-1"
+    if via == "xn" and n >= 3 and a < 0 < b:
+        return "F-C09-6"
     return None
 
 
